@@ -112,7 +112,7 @@ class TreeGen:
         return cs
 
     def _is_leafy(self, c: str) -> bool:
-        return all(f.shape in ("opt", "tuple") for f in self.U.child_fields(c))
+        return all(f.shape in ("opt", "tuple", "list") for f in self.U.child_fields(c))
 
     def _node(self, types: tuple[str, ...], depth: int) -> S:
         rng = self.rng
@@ -148,7 +148,7 @@ class TreeGen:
                         s.kids[f.name] = None
                 else:
                     s.kids[f.name] = self._node(f.types, depth + 1)
-            elif f.shape == "tuple":
+            elif f.shape in ("tuple", "list"):
                 if terminal:
                     if rng.random() < 0.5:
                         s.kids[f.name] = ()
